@@ -145,11 +145,369 @@ fn gen_c02(cfg: &GenCfg, rng: &mut Rng, w: &mut dyn Write, kind: &str) {
     }
 }
 
+
+/// all literal cubes over `n` variables as `cube` lines named `q<pos>_<neg>`; returns the names
+fn all_cubes(w: &mut dyn Write, n: u32) -> Vec<String> {
+    let mut names = Vec::new();
+    for pos in 0..(1u32 << n) {
+        for neg in 0..(1u32 << n) {
+            if pos & neg != 0 {
+                continue;
+            }
+            let name = format!("q{}_{}", pos, neg);
+            let mut l = format!("cube {}", name);
+            for v in 0..n {
+                if pos >> v & 1 != 0 {
+                    l.push_str(&format!(" +{}", v));
+                } else if neg >> v & 1 != 0 {
+                    l.push_str(&format!(" -{}", v));
+                }
+            }
+            writeln!(w, "{}", l).unwrap();
+            names.push(name);
+        }
+    }
+    names
+}
+
+fn gen_c04(cfg: &GenCfg, rng: &mut Rng, w: &mut dyn Write, kind: &str) {
+    let n = 3u32;
+    let nf = 1u64 << (1 << n);
+    let orders = perms(n);
+    let quants = ["forall", "exists", "unique"];
+    for (oi, order) in orders.iter().enumerate() {
+        if !cfg.thorough && oi % 2 == 1 {
+            continue;
+        }
+        writeln!(w, "case c04-n3-o{}", oi).unwrap();
+        prelude(w, n, order, 1, 1024, true);
+        let cubes = all_cubes(w, n);
+        // restrict with every literal cube
+        for f in 0..nf {
+            for c in &cubes {
+                if cfg.thorough || rng.chance(1, 3) {
+                    writeln!(w, "restrict r f{} {}", f, c).unwrap();
+                }
+            }
+        }
+        if zbdd(kind) {
+            continue;
+        }
+        // quantification over every variable set (positive cubes q<pos>_0)
+        for f in 0..nf {
+            for vs in 0..(1u32 << n) {
+                for q in quants {
+                    writeln!(w, "quant r {} f{} q{}_0", q, f, vs).unwrap();
+                }
+            }
+        }
+        let combos = if cfg.thorough { 200000 } else { 8000 } * cfg.scale;
+        for _ in 0..combos {
+            writeln!(w, "applyq r {} {} f{} f{} q{}_0", rng.pick(&quants), rng.pick(&BIN_OPS), rng.below(nf), rng.below(nf), rng.below(1 << n)).unwrap();
+        }
+        // substitution: every domain subset, replacements from a pool of functions; the same
+        // substitution object reused, two objects alternated, separated by gc
+        let pool: Vec<u64> = (0..16).map(|_| rng.below(nf)).collect();
+        let nsub = if cfg.thorough { 400 } else { 60 } * cfg.scale;
+        for sidx in 0..nsub {
+            let dom = rng.range(1, (1 << n) - 1) as u32;
+            let mut l = format!("mksubst s{}", sidx);
+            for v in 0..n {
+                if dom >> v & 1 != 0 {
+                    l.push_str(&format!(" {}=f{}", v, rng.pick(&pool)));
+                }
+            }
+            writeln!(w, "{}", l).unwrap();
+            for _rep in 0..3 {
+                for _ in 0..6 {
+                    writeln!(w, "subst r f{} s{}", rng.below(nf), sidx).unwrap();
+                    if sidx > 0 {
+                        writeln!(w, "subst r2 f{} s{}", rng.below(nf), sidx - 1).unwrap();
+                    }
+                }
+                if rng.chance(1, 2) {
+                    writeln!(w, "gc").unwrap();
+                }
+            }
+            if sidx > 0 {
+                writeln!(w, "dropsubst s{}", sidx - 1).unwrap();
+            }
+        }
+    }
+    if zbdd(kind) {
+        return;
+    }
+    // random instances up to 8 variables
+    let cases = if cfg.thorough { 40 } else { 6 } * cfg.scale;
+    for c in 0..cases {
+        let n = rng.range(4, 8) as u32;
+        let mut order: Vec<u32> = (0..n).collect();
+        rng.shuffle(&mut order);
+        writeln!(w, "case c04-rand-{}-n{}", c, n).unwrap();
+        prelude(w, n, &order, *rng.pick(&[1u32, 2]), 256, false);
+        let mut pool = rand_pool(w, rng, n, if cfg.thorough { 60 } else { 30 });
+        for s in 0..(if cfg.thorough { 150 } else { 60 }) {
+            // a random literal cube / variable set
+            let mut l = format!("cube k{}", s);
+            let mut l2 = format!("cube vs{}", s);
+            for v in 0..n {
+                match rng.below(4) {
+                    0 => l.push_str(&format!(" +{}", v)),
+                    1 => l.push_str(&format!(" -{}", v)),
+                    _ => {}
+                }
+                if rng.chance(1, 3) {
+                    l2.push_str(&format!(" +{}", v));
+                }
+            }
+            writeln!(w, "{}", l).unwrap();
+            writeln!(w, "{}", l2).unwrap();
+            let name = format!("g{}", s + 1000);
+            match rng.below(4) {
+                0 => writeln!(w, "restrict {} {} k{}", name, rng.pick(&pool), s).unwrap(),
+                1 => writeln!(w, "quant {} {} {} vs{}", name, rng.pick(&quants), rng.pick(&pool), s).unwrap(),
+                2 => writeln!(w, "applyq {} {} {} {} {} vs{}", name, rng.pick(&quants), rng.pick(&BIN_OPS), rng.pick(&pool), rng.pick(&pool), s).unwrap(),
+                _ => {
+                    let mut m = format!("mksubst t{}", s);
+                    let mut any = false;
+                    for v in 0..n {
+                        if rng.chance(1, 3) {
+                            m.push_str(&format!(" {}={}", v, rng.pick(&pool)));
+                            any = true;
+                        }
+                    }
+                    if !any {
+                        m.push_str(&format!(" 0={}", rng.pick(&pool)));
+                    }
+                    writeln!(w, "{}", m).unwrap();
+                    writeln!(w, "subst {} {} t{}", name, rng.pick(&pool), s).unwrap();
+                    writeln!(w, "subst {}b {} t{}", name, rng.pick(&pool), s).unwrap();
+                }
+            }
+            pool.push(name);
+        }
+    }
+}
+
+/// variables, constants and `steps` random operator results as a pool of handle names
+fn rand_pool(w: &mut dyn Write, rng: &mut Rng, n: u32, steps: usize) -> Vec<String> {
+    let mut pool: Vec<String> = Vec::new();
+    for v in 0..n {
+        writeln!(w, "var x{} {}", v, v).unwrap();
+        writeln!(w, "notvar nx{} {}", v, v).unwrap();
+        pool.push(format!("x{v}"));
+        pool.push(format!("nx{v}"));
+    }
+    for s in 0..steps {
+        let name = format!("g{s}");
+        if rng.chance(1, 5) {
+            writeln!(w, "op {} ite {} {} {}", name, rng.pick(&pool), rng.pick(&pool), rng.pick(&pool)).unwrap();
+        } else {
+            writeln!(w, "op {} {} {} {}", name, rng.pick(&BIN_OPS), rng.pick(&pool), rng.pick(&pool)).unwrap();
+        }
+        pool.push(name);
+    }
+    pool
+}
+
+fn gen_c13(cfg: &GenCfg, rng: &mut Rng, w: &mut dyn Write, kind: &str) {
+    let n = 3u32;
+    let nf = 1u64 << (1 << n);
+    let orders = perms(n);
+    for (oi, order) in orders.iter().enumerate() {
+        if !cfg.thorough && oi % 2 == 1 {
+            continue;
+        }
+        writeln!(w, "case c13-n3-o{}", oi).unwrap();
+        prelude(w, n, order, 1, 1024, true);
+        let cubes = all_cubes(w, n);
+        for f in 0..nf {
+            for ch in 0..(1u32 << n) {
+                writeln!(w, "pickvec f{} {:03b}", f, ch).unwrap();
+                writeln!(w, "pick r f{} {:03b}", f, ch).unwrap();
+            }
+            for c in &cubes {
+                writeln!(w, "pickset r f{} {}", f, c).unwrap();
+            }
+            if f % 16 == 3 || cfg.thorough {
+                writeln!(w, "pickuni f{} {} {}", f, rng.below(1 << 30), if cfg.thorough { 4000 } else { 1700 }).unwrap();
+            }
+        }
+    }
+    let cases = if cfg.thorough { 40 } else { 6 } * cfg.scale;
+    for c in 0..cases {
+        let n = rng.range(4, if zbdd(kind) { 7 } else { 8 }) as u32;
+        let mut order: Vec<u32> = (0..n).collect();
+        rng.shuffle(&mut order);
+        writeln!(w, "case c13-rand-{}-n{}", c, n).unwrap();
+        prelude(w, n, &order, 1, 256, false);
+        let pool = rand_pool(w, rng, n, if cfg.thorough { 80 } else { 40 });
+        for s in 0..(if cfg.thorough { 200 } else { 80 }) {
+            let f = rng.pick(&pool).clone();
+            let ch = rng.below(1 << n);
+            writeln!(w, "pickvec {} {:0width$b}", f, ch, width = n as usize).unwrap();
+            writeln!(w, "pick r {} {:0width$b}", f, ch, width = n as usize).unwrap();
+            let mut l = format!("cube k{}", s);
+            for v in 0..n {
+                match rng.below(3) {
+                    0 => l.push_str(&format!(" +{}", v)),
+                    1 => l.push_str(&format!(" -{}", v)),
+                    _ => {}
+                }
+            }
+            writeln!(w, "{}", l).unwrap();
+            writeln!(w, "pickset r {} k{}", f, s).unwrap();
+            if s % 20 == 0 && n <= 6 {
+                writeln!(w, "pickuni {} {} 3000", f, rng.below(1 << 30)).unwrap();
+            }
+        }
+    }
+}
+
+fn gen_c12(cfg: &GenCfg, rng: &mut Rng, w: &mut dyn Write, kind: &str) {
+    let n = 3u32;
+    let nf = 1u64 << (1 << n);
+    let orders = perms(n);
+    let tys = ["u64", "u128", "f64", "nat"];
+    for (oi, order) in orders.iter().enumerate() {
+        if !cfg.thorough && oi % 3 != 0 {
+            continue;
+        }
+        writeln!(w, "case c12-n3-o{}", oi).unwrap();
+        prelude(w, n, order, 1, 1024, true);
+        let varss: Vec<u32> = if zbdd(kind) { vec![n] } else { vec![n, n + 1, n + 60, n + 61, n + 70, n + 125, 1100] };
+        for f in 0..nf {
+            for &vars in &varss {
+                for ty in tys {
+                    // fresh cache, and a cache shared across handles (and across changing `vars`)
+                    writeln!(w, "satcount f{} {} {}", f, vars, ty).unwrap();
+                    writeln!(w, "satcount f{} {} {} cache=shared", f, vars, ty).unwrap();
+                }
+            }
+            if f % 32 == 31 {
+                // recycle node ids: drop temporaries, collect, rebuild
+                writeln!(w, "op tmp{} xor f{} f{}", f, f, (f * 7 + 3) % nf).unwrap();
+                writeln!(w, "satcount tmp{} {} nat cache=shared", f, n).unwrap();
+                writeln!(w, "drop tmp{}", f).unwrap();
+                writeln!(w, "gc").unwrap();
+            }
+        }
+    }
+    let cases = if cfg.thorough { 30 } else { 5 } * cfg.scale;
+    for c in 0..cases {
+        let n = rng.range(4, if zbdd(kind) { 7 } else { 10 }) as u32;
+        let mut order: Vec<u32> = (0..n).collect();
+        rng.shuffle(&mut order);
+        writeln!(w, "case c12-rand-{}-n{}", c, n).unwrap();
+        prelude(w, n, &order, 1, 256, false);
+        let pool = rand_pool(w, rng, n, if cfg.thorough { 80 } else { 40 });
+        for s in 0..(if cfg.thorough { 300 } else { 100 }) {
+            let f = rng.pick(&pool).clone();
+            let vars = if zbdd(kind) { n } else { *rng.pick(&[n, n, n + 1, n + 50, n + 70, 1100]) };
+            let ty = rng.pick(&tys);
+            if rng.chance(1, 2) {
+                writeln!(w, "satcount {} {} {} cache=c{}", f, vars, ty, rng.below(2)).unwrap();
+            } else {
+                writeln!(w, "satcount {} {} {}", f, vars, ty).unwrap();
+            }
+            if s % 25 == 24 {
+                writeln!(w, "op junk{} xor {} {}", s, rng.pick(&pool), rng.pick(&pool)).unwrap();
+                writeln!(w, "satcount junk{} {} nat cache=c0", s, n).unwrap();
+                writeln!(w, "drop junk{}", s).unwrap();
+                writeln!(w, "gc").unwrap();
+            }
+        }
+    }
+}
+
+fn gen_c09(cfg: &GenCfg, rng: &mut Rng, w: &mut dyn Write, _kind: &str) {
+    let n = 3u32;
+    let nf = 1u64 << (1 << n);
+    let orders = perms(n);
+    for (oi, order) in orders.iter().enumerate() {
+        if !cfg.thorough && oi % 2 == 1 {
+            continue;
+        }
+        writeln!(w, "case c09-n3-o{}", oi).unwrap();
+        prelude(w, n, order, 1, 1024, true);
+        writeln!(w, "zconst ze empty").unwrap();
+        writeln!(w, "zconst zb base").unwrap();
+        for v in 0..n {
+            writeln!(w, "singleton sg{} {}", v, v).unwrap();
+        }
+        for f in 0..nf {
+            for v in 0..n {
+                writeln!(w, "subset0 r f{} {}", f, v).unwrap();
+                writeln!(w, "subset1 r f{} {}", f, v).unwrap();
+                writeln!(w, "change r f{} {}", f, v).unwrap();
+            }
+            writeln!(w, "cofchk f{}", f).unwrap();
+        }
+        let pairs = if cfg.thorough { nf * nf } else { 6000 * cfg.scale };
+        for i in 0..pairs {
+            let (f, g) = if cfg.thorough { (i / nf, i % nf) } else { (rng.below(nf), rng.below(nf)) };
+            for op in ["union", "intsec", "diff"] {
+                writeln!(w, "{} r f{} f{}", op, f, g).unwrap();
+            }
+        }
+    }
+    // histories that add variables between operations
+    let cases = if cfg.thorough { 60 } else { 10 } * cfg.scale;
+    for c in 0..cases {
+        let n0 = rng.range(2, 4) as u32;
+        writeln!(w, "case c09-addvars-{}", c).unwrap();
+        writeln!(w, "mgr nodes=65536 cache={} threads=1 vars={}", rng.pick(&[4usize, 256]), n0).unwrap();
+        let mut n = n0;
+        let mut pool: Vec<String> = Vec::new();
+        writeln!(w, "zconst ze empty").unwrap();
+        writeln!(w, "zconst zb base").unwrap();
+        pool.push("ze".into());
+        pool.push("zb".into());
+        let mut k = 0;
+        for step in 0..(if cfg.thorough { 120 } else { 60 }) {
+            let name = format!("g{}", step);
+            match rng.below(12) {
+                0 if n < 7 => {
+                    let add = rng.range(1, 2) as u32;
+                    writeln!(w, "addvars {}", add).unwrap();
+                    n += add;
+                    continue;
+                }
+                1 => writeln!(w, "singleton {} {}", name, rng.below(n as u64)).unwrap(),
+                2 => writeln!(w, "var {} {}", name, rng.below(n as u64)).unwrap(),
+                3 => writeln!(w, "const {} T", name).unwrap(),
+                4 => writeln!(w, "{} {} {} {}", rng.pick(&["subset0", "subset1", "change"]), name, rng.pick(&pool), rng.below(n as u64)).unwrap(),
+                5 => writeln!(w, "op {} not {}", name, rng.pick(&pool)).unwrap(),
+                6 => writeln!(w, "op {} {} {} {}", name, rng.pick(&BIN_OPS), rng.pick(&pool), rng.pick(&pool)).unwrap(),
+                7 => {
+                    k += 1;
+                    let mut l = format!("cube k{}", k);
+                    for v in 0..n {
+                        match rng.below(4) {
+                            0 => l.push_str(&format!(" +{}", v)),
+                            1 => l.push_str(&format!(" -{}", v)),
+                            _ => {}
+                        }
+                    }
+                    writeln!(w, "{}", l).unwrap();
+                    writeln!(w, "restrict {} {} k{}", name, rng.pick(&pool), k).unwrap();
+                }
+                _ => writeln!(w, "{} {} {} {}", rng.pick(&["union", "intsec", "diff"]), name, rng.pick(&pool), rng.pick(&pool)).unwrap(),
+            }
+            pool.push(name);
+        }
+    }
+}
+
 fn generate(cfg: &GenCfg, rng: &mut Rng, w: &mut dyn Write) {
     let kind = cfg.extra.get("kind").map(|s| s.as_str()).unwrap_or("bdd").to_string();
     let suite = cfg.extra.get("suite").map(|s| s.as_str()).unwrap_or("c02").to_string();
     match suite.as_str() {
         "c02" => gen_c02(cfg, rng, w, &kind),
+        "c04" => gen_c04(cfg, rng, w, &kind),
+        "c09" => gen_c09(cfg, rng, w, &kind),
+        "c12" => gen_c12(cfg, rng, w, &kind),
+        "c13" => gen_c13(cfg, rng, w, &kind),
         _ => panic!("unknown suite {suite}"),
     }
 }
